@@ -175,6 +175,8 @@ def run_case(spec):
                 allv = bool(rng.random() < 0.3)
                 rvars = [] if allv else [str(v) for v in rng.choice(
                     known_vars + ['never_saved'], min(int(rng.integers(1, 4)), len(known_vars) + 1), replace=False)]
+                if rvars and rng.random() < 0.3:      # a name listed twice is one column
+                    rvars = rvars + [rvars[int(rng.integers(len(rvars)))]]
                 rkw = dict(it=list(rits), vars=list(rvars))
                 if rrl:
                     rkw['rl'] = rrl
